@@ -217,6 +217,13 @@ func Render(prog []Stmt, mode string) Rendered {
 				amount = "$" + name
 			default:
 				amount = r.monetary(s.Asset, s.Amt)
+				if s.AmtBig != "" {
+					if mode == "vars" {
+						amount = r.variable("monetary", s.Asset+" "+s.AmtBig)
+					} else {
+						amount = "[" + s.Asset + " " + s.AmtBig + "]"
+					}
+				}
 			}
 			body.WriteString("send " + amount + " (\n")
 			body.WriteString("\tsource = " + r.source(s.Src, s.Asset, 1) + "\n")
